@@ -34,6 +34,19 @@ def build_cases(ctx, tags, subs):
     for c in range(128):
         invalid.append("a" + chr(c) + "b")
         invalid.append(chr(c))
+    # every known name with one character replaced by / followed by a character a sloppy conversion mistreats (case-folds to
+    # ASCII, looks like a letter in another alphabet, shares its low byte with an ASCII character)
+    import mpdgen as g
+    for n in names:
+        for ch in g.TRICKY_CHARS:
+            for pos in sorted({0, len(n) // 2, len(n) - 1}):
+                invalid.append(n[:pos] + ch + n[pos + 1:])
+            invalid.append(n + ch)
+            # replace every k/K/s/S/i/I by its look-alike
+        for src, dst in (("k", "\u212a"), ("K", "\u212a"), ("s", "\u017f"), ("S", "\u017f"), ("i", "\u0131"), ("I", "\u0130")):
+            if src in n:
+                invalid.append(n.replace(src, dst))
+                invalid.append(n.replace(src, dst, 1))
     for s in invalid:
         cases.append("tag_parse " + hexs(s))
     # comparisons: all pairs over variants and catch-all values holding each name in four cases
